@@ -1,11 +1,15 @@
 #!/bin/bash
-# evaluate every delivered agent change that has not been evaluated yet
+# evaluate every delivered agent change that has not been evaluated yet (round 1: ids <P>-1,-2; round 2: <P>-3,-4)
 cd /verif
-for d in /tmp/agent_out_C*/change*; do
-  pid=$(basename $(dirname $d) | sed 's/agent_out_//'); k=$(basename $d | sed 's/change//')
+for d in /tmp/agent_out_C*/change* /tmp/agent2_out_C*/change*; do
+  [ -d "$d" ] || continue
+  base=$(basename $(dirname $d))
+  pid=$(echo $base | sed 's/agent2\{0,1\}_out_//')
+  k=$(basename $d | sed 's/change//')
+  case $base in agent2_*) k=$((k+2));; esac
   id="$pid-$k"
-  [ -f $d/patch.diff ] && [ -f $d/demo.py ] || continue
+  [ -f $d/patch.diff ] && [ -f $d/demo.py ] && [ -f $d/notes.md ] || continue
   [ -f seeded/$id/meta.json ] && continue
   echo "### $id"
-  /venv/bin/python tools/seedrun.py $d $id $pid 2>&1 | tail -2
+  /venv/bin/python tools/seedrun.py $d $id $pid $EXTRA 2>&1 | tail -2
 done
